@@ -97,3 +97,9 @@ claim("C18", "property-based testing with an instrumented stream (monitor of con
       "its end were consumed, the same amount when the tail is four times longer, a bounded number of read() calls; documents before a malformed one are delivered before its error (the error it gives alone); "
       "closing the generator disposes the loader and reads nothing more.",
       "Trusted: the block constants 4096 / 16384 (what the unchanged library requests) and the offsets computed by the generator.")
+claim("C19", "fault injection with per-case enumeration of every fault index (write, flush, read, user constructor/multi-constructor/representer/multi-representer/YAMLObject callbacks), cases generated by Hypothesis",
+      "For every generated case the fault-free run counts the invocations of the caller's object; the run is then repeated with a unique exception object raised at each invocation index (runs above 250 invocations: "
+      "first 80, last 80, even sample), for nine exception types incl. TypeError/KeyError/AttributeError and a BaseException subclass, on both back-ends and on user classes with path resolvers. Oracle: the "
+      "exception reaching the caller is the injected object, unchained; what was written is a prefix of the fault-free output; afterwards a fixed dump/load battery and a new call with the same class give their "
+      "reference results and the digest of the package's global state is unchanged.",
+      "Trusted: the instrumented writer/reader in checks/c19.py; faults are exceptions raised at call boundaries of the caller's objects.", category="fault_enumeration")
